@@ -7,11 +7,13 @@ BUDGET_S = {'quick': 90, 'thorough': 900}
 BATCH = 60
 RULE = ('movies of the C01 generator whose FourCC bytes are drawn from path-like material ("../", "/", NUL, "C:", '
         '"\\\\", ".", " ") as well as letters, with duplicate types and up to 300 resources; Mac, PC and projector '
-        '(.EXE name + prefix with decoys) inputs; every movie is extracted twice into the same scratch folder with the '
+        '(.EXE name + prefix with decoys) inputs; the bin folder starts absent, or holding an earlier revision of the movie '
+        '(same names and sizes, other bytes), or leftovers of other sizes plus an unrelated file; every movie is extracted twice into the same scratch folder with the '
         'real main() under an audit hook recording every file opened for writing and every mkdir. Non-trivial = at least '
         '3 files written and at least one FourCC containing a byte outside [A-Za-z0-9]; distinct by SHA1.')
 EXPLANATION = ('Theorems on the write-list model (coq/Model/Xtract.v): names safe, the write list is exactly the '
-               'designated resources, re-applying the writes leaves the folder unchanged. The OS part (what open() does '
+               'designated resources, re-applying the writes leaves the folder unchanged, a written name holds written content '
+               'whatever the folder held before and other names are untouched. The OS part (what open() does '
                'with a name) is observed on the real run, not proved.')
 TRUSTED_BASE = ['Coq 8.16.1 kernel; no axioms',
                 'hand-written model coq/Model/Xtract.v + Riff.v; os.path.join/open/re.sub modelled (character class as a map)',
@@ -20,8 +22,8 @@ ASSUMPTIONS = ['a file name made of [A-Za-z0-9._-] that starts with a digit desi
                'the process has a fresh module state per run (the CLI is one process per extraction)']
 LEVEL_TEXT = ('Proof on the write-list model, partial w.r.t. the OS: Coq theorems that every file name consists of '
               '[A-Za-z0-9._-] and starts with a digit (hence is no path), that the write list is exactly one (name, payload) '
-              'per non-ignored resource with size > 0 in memory-map order, and that writing the list twice equals writing '
-              'it once; the real main() is run in a scratch folder under an audit hook and compared with the model.')
+              'per non-ignored resource with size > 0 in memory-map order, that writing the list twice equals writing '
+              'it once, and that a written name holds written content independently of the earlier folder content; the real main() is run in a scratch folder under an audit hook and compared with the model.')
 LEVEL_NOTE = ('Trusted: Coq kernel, hand-written model, extraction, harness. What the model cannot exhibit: symlinks, '
               'case-folding file systems, OS path rules - covered only by observation of the real run.')
 TECHNIQUE = 'Coq proof over the write-list model (induction over memory-map entries) + audited real runs compared with the model'
@@ -51,18 +53,18 @@ def gen_cases(rng, tier):
             cs, hdr, entries = C01.build_movie(rng, nch, bo, prefix)
             flen = C01.offsets(cs)[-1] - 8
             yield {'kind': 'movie', 'cs': cs, 'bo': bo, 'prefix': prefix, 'flen': flen, 'hdr': hdr, 'entries': entries,
-                   'mode': mode}
+                   'mode': mode, 'pre': rng.choice(['none', 'none', 'stale', 'mixed'])}
     finally:
         C01.rand_cc = old
 
 def case_to_json(c):
     j = C01.case_to_json(c); j['mode'] = c['mode']; return j
 def case_from_json(j):
-    c = C01.case_from_json(j); c['mode'] = j['mode']; return c
+    c = C01.case_from_json(j); c['mode'] = j['mode']; c['pre'] = j.get('pre', 'none'); return c
 def describe(c):
-    j = C01.describe(c); j['mode'] = c['mode']; return j
+    j = C01.describe(c); j['mode'] = c['mode']; j['pre'] = c.get('pre', 'none'); return j
 def classify(c, ir):
-    return '%s/chunks=%s' % (c['mode'], len(c['cs']) if len(c['cs']) < 6 else '6+')
+    return '%s/pre=%s/chunks=%s' % (c['mode'], c.get('pre', 'none'), len(c['cs']) if len(c['cs']) < 6 else '6+')
 
 IGNORED = (b'RIFX', b'imap', b'mmap', b'free', b'junk')
 FN_OK = set(b'ABCDEFGHIJKLMNOPQRSTUVWXYZabcdefghijklmnopqrstuvwxyz0123456789-_.')
@@ -78,6 +80,32 @@ def expected_files(c):
         i = offs.index(e[2] - base)
         name = ('%d.' % idx).encode() + bytes(b if b in FN_OK else 0x5f for b in cc)
         out[name] = c['cs'][i][1]
+    return out
+
+def pre_files(c):
+    """what the bin folder holds before the first run: nothing; 'stale' = an earlier revision of the same movie
+    (same names, same sizes, other bytes); 'mixed' = leftovers of other sizes, some names absent, plus a file the
+    movie does not name.  Derived from the case alone, so a replay rebuilds it."""
+    mode = c.get('pre', 'none')
+    if mode == 'none':
+        return None
+    exp = expected_files(c)
+    out = {}
+    for k, (name, data) in enumerate(sorted(exp.items())):
+        if mode == 'stale':
+            out[name] = bytes(b ^ 0x5a for b in data)
+        elif k % 3 == 0:
+            out[name] = bytes(b ^ 0x5a for b in data)
+        elif k % 3 == 1:
+            out[name] = data[:len(data) // 2] + b'old'
+    if mode == 'mixed':
+        out[b'notes.txt'] = b'not a resource of this movie'
+    return out
+
+def final_files(c):
+    """the folder after a run = the earlier content overwritten by the movie's resources"""
+    out = dict(pre_files(c) or {})
+    out.update(expected_files(c))
     return out
 
 def nontrivial(c, ir):
@@ -120,6 +148,12 @@ def real_run(c):
         # a sentinel sibling that must stay untouched
         with open(os.path.join(top, 'sentinel'), 'wb') as f:
             f.write(b'keep')
+        pre = pre_files(c)
+        if pre is not None:
+            os.mkdir(os.path.join(outdir, 'bin'))
+            for name, data in pre.items():
+                with open(os.path.join(outdir, 'bin', name.decode()), 'wb') as f:
+                    f.write(data)
         src = os.path.join(top, 'movie.EXE' if c['mode'] == 'exe' else 'movie.dxr')
         with open(src, 'wb') as f:
             f.write(C01.movie_bytes(c))
@@ -157,7 +191,7 @@ def compare(c, ir, mv):
     if ir[0] != 'ok':
         return None
     ws, st = mv
-    fs = {}
+    fs = dict(pre_files(c) or {})
     for name, content in ws:
         fs[name] = content
     r = ir[1]['runs'][0]
@@ -173,7 +207,7 @@ def oracle(c, ir):
         return 'extractor run failed: %r' % (ir[1:],)
     res = ir[1]
     top = res['top']
-    exp = expected_files(c)
+    exp = final_files(c)
     bin_prefix = os.path.join(top, 'out', 'bin') + os.sep
     for k, r in enumerate(res['runs']):
         if r['status'] != 'done':
